@@ -604,6 +604,67 @@ fn mix_case(c: &MixCase) -> CaseResult {
     Ok(Verdict::of(distinct.len() >= 3, format!("n={} types={}", c.items.len(), distinct.len())))
 }
 
+// ---------------------------------------------------------------------------
+// (v) accumulators of the in-circuit verifier: all-plain encoding and the encoding whose
+// right-hand-side scalars go through the committed instance column
+
+#[derive(Clone, Debug, Serialize, Deserialize)]
+struct AccCase {
+    n_fixed: usize,
+    n_perm: usize,
+    terms: (usize, usize),
+    committed_scalars: bool,
+    seed: u64,
+}
+
+fn acc_case(c: &AccCase) -> CaseResult {
+    use midnight_circuits::verifier::AssignedAccumulator;
+    use midnight_proofs::dev::MockProver;
+    use vp_circ::acc_circuit::{names, synthetic, AccCircuit, ACC_K, S};
+    let mut rng = ChaCha20Rng::seed_from_u64(c.seed);
+    let nm = names(c.n_fixed, c.n_perm);
+    let acc = synthetic(&nm, c.terms, &mut rng);
+    let circuit = AccCircuit { names: nm.clone(), lens: c.terms, acc: Value::known(acc.clone()), committed_scalars: c.committed_scalars };
+    let (plain, committed): (Vec<F>, Vec<F>) = if c.committed_scalars { AssignedAccumulator::<S>::as_public_input_with_committed_scalars(&acc) } else { (AssignedAccumulator::<S>::as_public_input(&acc), vec![]) };
+    let run = |committed: Vec<F>, plain: Vec<F>| -> Result<bool, String> {
+        match vpcore::catch(|| MockProver::run(ACC_K, &circuit, vec![committed, plain]).map(|p| p.verify().is_ok())) {
+            Err(p) => Err(format!("panic: {p}")),
+            Ok(Err(e)) => Err(format!("synthesis: {e:?}")),
+            Ok(Ok(b)) => Ok(b),
+        }
+    };
+    let what = if c.committed_scalars { "committed-scalars" } else { "all-plain" };
+    let r = run(committed.clone(), plain.clone());
+    ensure!(r == Ok(true), format!("accumulator:{what}:circuit-rejects-offcircuit-encoding"), "{} fixed / {} permutation commitments, terms {:?}: {r:?} (|plain| = {}, |committed| = {})", c.n_fixed, c.n_perm, c.terms, plain.len(), committed.len());
+    let mut srng = SplitMix(c.seed ^ 0xacc);
+    // one position of each vector edited; the other encoding of the same value
+    for (which, len) in [("plain", plain.len()), ("committed", committed.len())] {
+        if len == 0 {
+            continue;
+        }
+        let pos = srng.below(len as u64) as usize;
+        let (mut p2, mut c2) = (plain.clone(), committed.clone());
+        if which == "plain" {
+            p2[pos] += F::ONE;
+        } else {
+            c2[pos] += F::ONE;
+        }
+        let r = run(c2, p2);
+        ensure!(r != Ok(true), format!("accumulator:{what}:accepts-edited-{which}-position"), "position {pos} of {len}");
+    }
+    if c.committed_scalars {
+        let r = run(vec![], AssignedAccumulator::<S>::as_public_input(&acc));
+        ensure!(r != Ok(true), "accumulator:committed-scalars:accepts-all-plain-encoding", "the circuit binding the scalars in the committed column is satisfied by the all-plain encoding and an empty committed column");
+    } else if !committed.is_empty() || true {
+        let (p2, c2) = AssignedAccumulator::<S>::as_public_input_with_committed_scalars(&acc);
+        if !c2.is_empty() {
+            let r = run(c2, p2);
+            ensure!(r != Ok(true), "accumulator:all-plain:accepts-committed-scalars-encoding", "");
+        }
+    }
+    Ok(Verdict::nontrivial(format!("accumulator/{what}")).with(format!("names:{}", nm.len())))
+}
+
 fn main() {
     vpcore::main("C08", "exploration", (2400, 14400), |p| {
         p.assume("the reference encoding is the library's own off-circuit encoder (Instantiable::as_public_input / AssignedBigUint::as_public_input): the property relates it to what the circuit binds");
@@ -642,6 +703,23 @@ fn main() {
                         .boxed()
                 },
                 |c| one(c, true),
+            );
+        }
+        {
+            let mut rng = SplitMix(p.seed ^ 0xacc08);
+            let mut items = vec![];
+            for (n_fixed, n_perm) in if p.quick() { vec![(3usize, 2usize), (12, 5)] } else { vec![(1, 1), (3, 2), (12, 5), (7, 13), (30, 11)] } {
+                for committed_scalars in [false, true] {
+                    items.push(AccCase { n_fixed, n_perm, terms: (1 + rng.below(2) as usize, 1 + rng.below(2) as usize), committed_scalars, seed: rng.next_u64() });
+                }
+            }
+            p.enumerate(
+                "accumulator.encoding",
+                "synthetic accumulators of the in-circuit verifier (BLS12-381 self-emulation) witnessed and exposed all-plain or with committed right-hand-side scalars: the circuit is satisfied with (committed, plain) = the off-circuit encoding of that path, and not with an edited position of either vector nor with the other path's encoding; every case non-trivial",
+                items,
+                4,
+                false,
+                acc_case,
             );
         }
         let base: Vec<Ty> = vec![Ty::Bit, Ty::Byte, Ty::Native, Ty::JubjubPoint, Ty::JubjubScalar, Ty::BigUint(200), Ty::SecpScalar, Ty::BlsPoint];
